@@ -1,0 +1,29 @@
+//go:build verif
+
+package runner
+
+import (
+	"lunar/engine/config"
+	sharedConfig "lunar/shared-model/config"
+)
+
+// Exports for the verification harness (/verif): the dispatcher's selection of
+// remedies and diagnoses for a method and URL, unchanged.
+
+func VerifGetRemedies(
+	method string,
+	url string,
+	policyTree *config.EndpointPolicyTree,
+	globalPolicies *sharedConfig.Global,
+) []config.ScopedRemedy {
+	return getRemedies(method, url, policyTree, globalPolicies)
+}
+
+func VerifGetDiagnoses(
+	method string,
+	url string,
+	policyTree *config.EndpointPolicyTree,
+	globalDiagnoses []sharedConfig.Diagnosis,
+) []*config.ScopedDiagnosis {
+	return getDiagnoses(method, url, policyTree, globalDiagnoses)
+}
